@@ -50,7 +50,7 @@ def history(args):
     log = []
     try:
         A = sb.path
-        roots_pool = [A + "/r1", A + "/r1/", A + "/r2/sub", A + "/r2/sub/", A + "/r1x"]
+        roots_pool = [A + "/r1", A + "/r1/", A + "/r2/sub", A + "/r2/sub/", A + "/r1x", A + "/r1.d", A + "/r1-x", A + "/r1/deep", A + "/r2", A + "/r2.old"]
         # candidate outputs: inside roots, sharing prefixes with roots, outside roots, relative, directories, symlinks
         def mk():
             files = {}
@@ -95,7 +95,7 @@ def history(args):
                 cur.append(rnd.choice(cur))
             if ndup or rnd.random() < 0.3:
                 rnd.shuffle(cur)
-            roots = [] if rnd.random() < 0.35 else rnd.sample(roots_pool, rnd.randint(1, 2))
+            roots = [] if rnd.random() < 0.35 else rnd.sample(roots_pool, rnd.randint(1, 3))
             if roots:
                 res["roots_cases"] += 1
             d = bslib.Desc()
